@@ -53,7 +53,7 @@ REQUIRED_PROBES = {
               "finally_after_break", "finally_after_return",
               "finally_raises", "handler_raises", "uncaught_reaches_top",
               "stream_loop_body_error", "fault_in_finally",
-              "fault_in_handler"],
+              "fault_in_handler", "return_of_call_raised_in_block"],
 }
 REQUIRED_PROBES["thorough"] = REQUIRED_PROBES["quick"]
 
@@ -153,6 +153,11 @@ class NestGen:
             f = rng.choice(self.fns)
             return ["expr", ["call", f, [rng.randrange(3)]]]
         if r < 0.82 and ctx.get("fn") and not ctx.get("nocontrol"):
+            if self.fns and not ctx.get("infn_def") and rng.random() < 0.5:
+                # the returned expression is itself a call that may raise
+                # while the enclosing blocks are still active
+                return ["ret", ["call", rng.choice(self.fns),
+                                [rng.randrange(3)]]]
             return ["ret", ["lit", self.value()]]
         if r < 0.90 and ctx.get("loop") and not ctx.get("nocontrol"):
             return [rng.choice(["brk", "cont"])]
@@ -191,7 +196,12 @@ class NestGen:
             if rr < 0.2:
                 h.append(self.fail_stmt())           # handler raises
             elif rr < 0.3 and ctx.get("fn") and not ctx.get("nocontrol"):
-                h.append(["ret", ["lit", self.value()]])
+                if self.fns and not ctx.get("infn_def") and \
+                        rng.random() < 0.4:
+                    h.append(["ret", ["call", rng.choice(self.fns),
+                                      [rng.randrange(3)]]])
+                else:
+                    h.append(["ret", ["lit", self.value()]])
             elif rr < 0.4 and ctx.get("loop") and not ctx.get("nocontrol"):
                 h.append([rng.choice(["brk", "cont"])])
             elif rr < 0.55 and depth < 4:
@@ -225,13 +235,14 @@ class NestGen:
 def gen_case(rng, tier, k):
     g = NestGen(rng)
     prog = []
-    for i in range(rng.choice([0, 0, 1, 2])):
+    for i in range(rng.choice([0, 1, 1, 2])):
         name = f"fn{i + 1}"
         ctx = {"fn": True, "infn_def": True}
         body = [g.block(1, ctx)]
-        if rng.random() < 0.5:
+        if rng.random() < 0.7:
             body.append(["if", ["op", "==", ["v", "p"], rng.randrange(3)],
                          [g.fail_stmt()], None])
+            body.append(g.mark("fnm"))
         body.append(["ret", ["lit", g.value()]])
         prog.append(["deffn", name, ["p"], body])
         g.fns.append(name)
@@ -301,6 +312,8 @@ def run_case(case, root):
                           lambda: it.interpret(src, "nest", Environment()),
                           fault_steps=step_faults)
             events = sim.outs["A"].chunks[n0:]
+            if not plan:
+                static["base_steps"] = max(2, out["steps"])
             rec = {"plan": plan, "model": [mout[0], lang.vstr(mout[1])
                                            if mout[0] != "syn" else None],
                    "model_events": [t for _, t in mevents],
@@ -398,7 +411,7 @@ def run_case(case, root):
                         break
                     idx += 1
             if ok and tcfg["steps"]:
-                base_steps = max(2, static.get("base_steps", 40))
+                base_steps = static["base_steps"]
                 for _ in range(tcfg["steps"]):
                     plan = [{"site": "step",
                              "nth": r2.randrange(1, base_steps + 1)}]
